@@ -113,9 +113,17 @@ Definition write_description (o : opts) (level : nat) (d : str) : str :=
 Definition write_odesc (o : opts) (level : nat) (d : option str) : str :=
   match d with Some d => write_description o level d | None => [] end.
 
-(* escape_string *)
+(* escape_string: the listed characters are replaced; with the guarded arm
+   present, every other control character is written through its \u format *)
+Definition escape_u (c : cp) : str :=
+  sdl_escape_u_prefix_gen ++
+  pad0 sdl_escape_u_width_gen
+       (map (digit_char sdl_escape_u_upper_gen) (rev (digits_rev 32 sdl_escape_u_radix_gen c))).
 Definition escape_char (c : cp) : str :=
-  match nassoc c sdl_escape_table_gen with Some r => r | None => [c] end.
+  match nassoc c sdl_escape_table_gen with
+  | Some r => r
+  | None => if sdl_escape_ctrl_gen && is_control c then escape_u c else [c]
+  end.
 Definition escape_string (s : str) : str := flat_map escape_char s.
 
 (* write_deprecated *)
@@ -1095,13 +1103,15 @@ Definition describes_gen (norep : bool) (o : opts) (R : registry) (defs : option
 Definition describes := describes_gen false.
 
 (* ------------------------------------------------------------ known classes -- *)
-(* 1: a deprecation reason with a double quote, or with a control character
-      that escape_string copies (a quoted string may not hold it) *)
+(* 1: a deprecation reason with a character that escape_string copies although
+      a quoted string may not hold it (a double quote or a control character
+      that is neither listed nor covered by the guarded arm).  With the
+      repaired escape_string the class is empty (SdlProofs.bad_reason_char_never) *)
 Definition raw_ctrl (c : cp) : bool := (c <? 32) && negb (c =? 9).
 Definition bad_reason_char (c : cp) : bool :=
   match nassoc c sdl_escape_table_gen with
   | Some _ => false
-  | None => (c =? 34) || raw_ctrl c
+  | None => if sdl_escape_ctrl_gen && is_control c then false else (c =? 34) || raw_ctrl c
   end.
 Definition bad_depr (d : depr) : bool :=
   match d with Depr (Some r) => existsb bad_reason_char r | _ => false end.
